@@ -534,7 +534,7 @@ class Emitter:
                 s.counter += 1
                 nm = 'A_%d' % s.counter
                 s.tdefs[key] = nm
-                s.tdef_code.append('typedef %s %s[%d];' % (el, nm, max(t.n, 1) if t.n == 0 else t.n))
+                s.tdef_code.append('typedef %s %s[%d];' % (el, nm, 16 if t.n == 0 else t.n))
             return s.tdefs[key]
         if isinstance(t, TFunc):
             key = t.key()
@@ -704,6 +704,12 @@ class Emitter:
             s.alloc_helpers[hn] = ct
         return hn
 
+    def mem_helper(s, ct):
+        hn = re.sub(r'[^A-Za-z0-9_]', '_', ct.replace('*', '_p'))
+        if not hasattr(s, 'mem_helpers'): s.mem_helpers = collections.OrderedDict()
+        s.mem_helpers[hn] = ct
+        return hn
+
     def canon(s, name):
         seen = 0
         while name in s.m.alias_to and seen < 10:
@@ -869,6 +875,7 @@ class FnCtx:
         s.out = []
         s.extra_decls = []
         s.tmpc = 0
+        s.defs = {}
 
     def lname(s, name):
         return 'v_' + cid(name)
@@ -961,6 +968,8 @@ def translate_function(em, f):
             # invoke continuation line
             if re.match(r'\s*(%\S+ = )?invoke ', ln) and j + 1 < len(lines) and lines[j+1].strip().startswith('to label'):
                 ln += ' ' + lines[j+1].strip(); j += 1
+            if 'llvm.experimental.noalias.scope.decl' in ln or '@llvm.dbg.' in ln:
+                j += 1; continue
             ins.append(parse_instr(P(tokenize(ln)), em))
             j += 1
         parsed.append((lab, ins))
@@ -1009,6 +1018,7 @@ def translate_function(em, f):
         for I in ins:
             if I.get('res') is not None:
                 fc.declare(I['res'], I['rtype'])
+                fc.defs[I['res']] = I
     for (t, nm) in zip([p[0] for p in f.params], pnames):
         pass
     # phi handling: collect per-edge copies
@@ -1017,6 +1027,7 @@ def translate_function(em, f):
         for I in ins:
             if I['op'] == 'phi':
                 phis.setdefault(lab, []).append(I)
+    fc.order = {lab: k for k, (lab, ins) in enumerate(parsed)}
     body = []
     def edge(src, dst):
         """statements to perform when going src -> dst"""
@@ -1395,7 +1406,27 @@ def emit_instr(em, fc, f, I, lab, edge):
         if 'dest' in I:
             out.append(edge(lab, I['dest']))
         else:
-            out.append('if (%s) { %s } else { %s }' % (V(TInt(1), I['cond']), edge(lab, I['t']), edge(lab, I['f'])))
+            # CBMC resets a loop's unwinding counter only when a *conditional* backward goto is not
+            # taken; make the innermost backward edge the conditional one so nested loops do not
+            # accumulate their counts.
+            ot, of, oc = fc.order.get(I['t'], 1 << 30), fc.order.get(I['f'], 1 << 30), fc.order.get(lab, 0)
+            t_back, f_back = ot <= oc, of <= oc
+            c = V(TInt(1), I['cond'])
+            def split(e):
+                k = e.rfind('goto ')
+                return e[:k], e[k:]
+            if f_back and (not t_back or of > ot):
+                first, neg, second = I['f'], '!', I['t']
+            else:
+                first, neg, second = I['t'], '', I['f']
+            cp, gt = split(edge(lab, first))
+            if (ot <= oc or of <= oc) and cp.strip():
+                # phi copies of the conditional backward edge are hoisted before the test (the phi
+                # variables are only read at the head of their own block, every edge into which
+                # assigns them), so that the goto itself stays a conditional backward goto
+                out.append('%s if (%s%s) %s %s' % (cp, neg, c, gt, edge(lab, second)))
+            else:
+                out.append('if (%s%s) { %s } %s' % (neg, c, edge(lab, first), edge(lab, second)))
     elif op == 'switch':
         v = V(I['t'], I['v'])
         out.append('switch (%s) {' % v)
@@ -1457,6 +1488,31 @@ def emit_instr(em, fc, f, I, lab, edge):
         raise NotImplementedError(op)
     return out
 
+def ptr_elem_type(em, fc, v):
+    """element type behind an i8* operand of a mem intrinsic, if it is a bitcast of a typed pointer"""
+    src = None
+    if isinstance(v, VLocal):
+        D = fc.defs.get(v.name)
+        if D is not None and D['op'] == 'bitcast':
+            src = D['t']
+    elif isinstance(v, VCE) and v.op == 'bitcast':
+        src = v.args[0][0]
+    if src is None: return None
+    st = em.resolve(src)
+    if not isinstance(st, TPtr): return None
+    to = st.to
+    el = em.resolve(to)
+    while isinstance(el, TArr):
+        to = el.el; el = em.resolve(to)
+    if isinstance(el, TInt) and el.n == 8: return None
+    if isinstance(el, (TInt, TFloat, TPtr, TStruct)):
+        try:
+            em.size_align(to)
+        except NotImplementedError:
+            return None
+        return to
+    return None
+
 def emit_call(em, fc, f, I, lab, edge):
     out = []
     V = lambda t, v: em.val(t, v, fc)
@@ -1475,10 +1531,31 @@ def emit_call(em, fc, f, I, lab, edge):
         if nm.startswith('lifetime.') or nm.startswith('dbg.') or nm.startswith('experimental.noalias') or nm.startswith('invariant.') or nm == 'assume' or nm.startswith('prefetch'):
             pass
         elif nm.startswith('memcpy.') or nm.startswith('memmove.'):
-            fnm = '__ll2c_memcpy' if nm.startswith('memcpy') else '__ll2c_memmove'
-            out.append('%s((void*)%s, (void*)%s, (uint64_t)%s);' % (fnm, A[0], A[1], A[2]))
+            mv = nm.startswith('memmove')
+            td = ptr_elem_type(em, fc, args[0][1]); ts = ptr_elem_type(em, fc, args[1][1])
+            t = td if (td is not None and ts is not None and td.key() == ts.key()) else None
+            if t is not None:
+                em.need_complete(t)
+                ct = em.ctype(t); sz = em.size_align(t)[0]
+                nv = args[2][1]
+                if isinstance(nv, VInt) and nv.v % sz == 0 and nv.v // sz <= 8 and not mv:
+                    for k in range(nv.v // sz):
+                        out.append('((%s*)%s)[%d] = ((%s*)%s)[%d];' % (ct, A[0], k, ct, A[1], k))
+                else:
+                    hn = em.mem_helper(ct)
+                    out.append('__ll2c_%s_%s((%s*)%s, (%s*)%s, (uint64_t)%s);' % ('memmove' if mv else 'memcpy', hn, ct, A[0], ct, A[1], A[2]))
+            else:
+                fnm = '__ll2c_memmove' if mv else '__ll2c_memcpy'
+                out.append('%s((void*)%s, (void*)%s, (uint64_t)%s);' % (fnm, A[0], A[1], A[2]))
         elif nm.startswith('memset.'):
-            out.append('__ll2c_memset((void*)%s, %s, (uint64_t)%s);' % (A[0], A[1], A[2]))
+            td = ptr_elem_type(em, fc, args[0][1])
+            rt_ = em.resolve(td) if td is not None else None
+            if rt_ is not None and isinstance(rt_, (TInt, TPtr)) and isinstance(args[1][1], VInt) and args[1][1].v == 0:
+                ct = em.ctype(td)
+                hn = em.mem_helper(ct)
+                out.append('__ll2c_memzero_%s((%s*)%s, (uint64_t)%s);' % (hn, ct, A[0], A[2]))
+            else:
+                out.append('__ll2c_memset((void*)%s, %s, (uint64_t)%s);' % (A[0], A[1], A[2]))
         elif nm.startswith('fshl.') or nm.startswith('fshr.'):
             t = em.resolve(args[0][0]); n = t.n; ct = em.ctype(t)
             big = 'uint64_t' if n <= 32 else 'unsigned __int128'
@@ -1679,31 +1756,59 @@ static @T@* __ll2c_calloc_@H@(uint64_t bytes) { return (@T@*) calloc(1, bytes ? 
 static @T@* __ll2c_realloc_@H@(@T@* old, uint64_t bytes) { return (@T@*) realloc(old, bytes ? bytes : 1); }
 #else
 static @T@* __ll2c_malloc_@H@(uint64_t bytes) {
-  __CPROVER_size_t cnt = __ll2c_nondet_size();
-  __CPROVER_assume(cnt * sizeof(@T@) >= bytes && cnt * sizeof(@T@) < bytes + sizeof(@T@) && cnt <= bytes);
+  __CPROVER_size_t cnt = (bytes + sizeof(@T@) - 1) / sizeof(@T@);
   @T@* p = __CPROVER_allocate(cnt * sizeof(@T@), 0);
   __ll2c_note_alloc(p);
   return p;
 }
 static @T@* __ll2c_calloc_@H@(uint64_t bytes) {
-  __CPROVER_size_t cnt = __ll2c_nondet_size();
-  __CPROVER_assume(cnt * sizeof(@T@) >= bytes && cnt * sizeof(@T@) < bytes + sizeof(@T@) && cnt <= bytes);
+  __CPROVER_size_t cnt = (bytes + sizeof(@T@) - 1) / sizeof(@T@);
   @T@* p = __CPROVER_allocate(cnt * sizeof(@T@), 1);
   __ll2c_note_alloc(p);
   return p;
 }
 static @T@* __ll2c_realloc_@H@(@T@* old, uint64_t bytes) {
+#ifdef __LL2C_ARENA_@H@
+  /* harness option: the first realloc(NULL, sizeof arena) is served from a static
+     constant-size array; every other realloc of this element type is cut (assume false) */
+  static @T@ arena[__LL2C_ARENA_@H@]; static int used = 0;
+  if (old != 0 || used || bytes != sizeof(arena)) __ll2c_cut_realloc();
+  used = 1;
+  return arena;
+#endif
   @T@* q = __ll2c_malloc_@H@(bytes);
   if (old != 0) {
     uint64_t ob = __CPROVER_OBJECT_SIZE(old);
     uint64_t m = ob < bytes ? ob : bytes;
     if (m > __LL2C_REALLOC_COPY_MAX) __ll2c_cut_realloc();
-    memcpy(q, old, m);
+    for (uint64_t i = 0; i < m / sizeof(@T@); i++) q[i] = old[i];
     free(old);
   }
   return q;
 }
 #endif
+"""
+
+MEM_HELPER = r"""
+/* element-wise copies: CBMC's built-in memcpy/memset models with a symbolic length were
+   observed to be imprecise on typed arrays, so lengths are walked explicitly; the loops
+   are bounded by the unwinding limit (unwinding assertions report a too-small bound) */
+static void __ll2c_memcpy_@H@(@T@* d, @T@* s, uint64_t bytes) {
+  __ll2c_check_aligned(bytes % sizeof(@T@) == 0);
+  uint64_t n = bytes / sizeof(@T@);
+  for (uint64_t i = 0; i < n; i++) d[i] = s[i];
+}
+static void __ll2c_memmove_@H@(@T@* d, @T@* s, uint64_t bytes) {
+  __ll2c_check_aligned(bytes % sizeof(@T@) == 0);
+  uint64_t n = bytes / sizeof(@T@);
+  if ((uintptr_t)d <= (uintptr_t)s) { for (uint64_t i = 0; i < n; i++) d[i] = s[i]; }
+  else { for (uint64_t i = n; i > 0; i--) d[i-1] = s[i-1]; }
+}
+static void __ll2c_memzero_@H@(@T@* d, uint64_t bytes) {
+  __ll2c_check_aligned(bytes % sizeof(@T@) == 0);
+  uint64_t n = bytes / sizeof(@T@);
+  for (uint64_t i = 0; i < n; i++) d[i] = 0;
+}
 """
 
 def main():
@@ -1743,7 +1848,8 @@ def main():
                 ct = em.ctype(G.type)
                 nm = 'G_' + cid(g)
                 if G.init is None:
-                    gcode[g] = 'extern %s %s;\n#ifdef __LL2C_CONCRETE\n%s %s;\n#endif' % (ct, nm, ct, nm)
+                    # external object of unknown extent (e.g. libstdc++ typeinfo vtables, indexed at +2): 8-element backing array
+                    gcode[g] = '%s %s__ext[8];\n#define %s (%s__ext[0])' % (ct, nm, nm, nm)
                 else:
                     try:
                         gcode[g] = (nm, ct, em.init(G.type, G.init))
@@ -1784,6 +1890,8 @@ def main():
         o.write('\n'.join(sorted(em.static_asserts)) + '\n')
         for hn, ct in em.alloc_helpers.items():
             o.write(ALLOC_HELPER.replace('@H@', hn).replace('@T@', ct))
+        for hn, ct in getattr(em, 'mem_helpers', {}).items():
+            o.write(MEM_HELPER.replace('@H@', hn).replace('@T@', ct))
         o.write('\n'.join(protos) + '\n')
         # globals: declarations first, then definitions
         for g, c in gcode.items():
